@@ -367,8 +367,7 @@ PROPS["C15"] = dict(
     level_note="Trusted: Coq kernel, extraction, driver, harness; hand-written model of shared/reader.go tied to the code by differential testing. io.ReadAtLeast is transcribed from its source. No axioms.",
     rule="reader: data x schedule x op script; sched-dec: document x schedule; non-trivial = schedule with at least 2 entries; distinct by payload",
     trusted_base=TB_COMMON,
-    assumptions=["a reader may return (0, nil) at most 99 times in a row (after that ReadByte reports io.ErrNoProgress, as bufio does)",
-                 "the schedule language of Reader.v reports end of input with the Read after the last byte; readers that first answer (0, nil) there are exercised by the sched-dec suite ('Z' schedules) but are not covered by reader_refines_stream"],
+    assumptions=["a reader may return (0, nil) at most 99 times in a row (after that ReadByte reports io.ErrNoProgress, as bufio does)"],
     suites=[
         ("reader", dict(cmp=cmp_c15_reader, nontrivial=lambda p, i, m: len(p.split("|")[1].split()) >= 2, shrink=False,
                         what="shared.NewReader(schedulingReader): Readn1/Readb/Readn/Readnzc/Unreadn1/Track/StopTrack scripts vs Reader.run_ops and vs the abstract stream; every composition of data up to 6 (quick) / 10 bytes x EOF style x zero-read insertion, plus random")),
